@@ -6,7 +6,7 @@ from lib import Case, fmt_list
 
 PROP = "C18"
 DRIVER = "drv-c18"
-PROOF_MODULES = ["TetlProofs.C18.Props", "TetlProofs.C18.PropsCtype", "TetlProofs.C18.PropsDiv", "TetlProofs.C18.PropsGen"]
+PROOF_MODULES = ["TetlProofs.C18.Props", "TetlProofs.C18.PropsCtype", "TetlProofs.C18.PropsDiv", "TetlProofs.C18.PropsGen", "TetlProofs.C18.PropsGenW"]
 HARNESS = "harness/c18.cpp"
 SOURCES = ["include/etl/_strings/cstr.hpp", "include/etl/_cstring", "include/etl/_cwchar", "include/etl/_cctype",
            "include/etl/_cwctype", "include/etl/_cstdlib/div.hpp", "include/etl/_cstdlib/labs.hpp",
@@ -442,8 +442,13 @@ def regenerate(ctx):
     out = os.path.join(lib.LEAN, "Tetl", "C18", "Gen.lean")
     info = translate.translate(lib.REPO, out, translate.CCTYPE_JOBS, "#include <etl/cctype.hpp>\n", "Tetl.C18.Gen",
                                "include/etl/_cctype")
-    res = {"generated_file": os.path.relpath(out, lib.VERIF), "hash": lib.file_hash(out), "changed": info["changed"],
-           "functions": info["functions"], "translator": info["translator"]}
-    if info["errors"]:
-        res["error"] = "; ".join(info["errors"])
+    outw = os.path.join(lib.LEAN, "Tetl", "C18", "GenW.lean")
+    infow = translate.translate(lib.REPO, outw, translate.CWCTYPE_JOBS, "#include <etl/cwctype.hpp>\n", "Tetl.C18.GenW",
+                                "include/etl/_cwctype")
+    res = {"generated_files": [os.path.relpath(out, lib.VERIF), os.path.relpath(outw, lib.VERIF)],
+           "hash": [lib.file_hash(out), lib.file_hash(outw)], "changed": info["changed"] or infow["changed"],
+           "functions": info["functions"] + infow["functions"], "translator": info["translator"]}
+    errs = info["errors"] + infow["errors"]
+    if errs:
+        res["error"] = "; ".join(errs)
     return res
